@@ -121,7 +121,7 @@ func buildOverlay(verifDir, specDir string, spec *Spec) (map[string][]byte, []st
 			if err != nil {
 				return nil, nil, err
 			}
-			ov["/repo/"+shared+"/"+filepath.Base(e)] = b
+			ov[repoRoot+"/"+shared+"/"+filepath.Base(e)] = b
 		}
 	}
 	pkgset := map[string]bool{"./verifrt": true}
@@ -130,7 +130,7 @@ func buildOverlay(verifDir, specDir string, spec *Spec) (map[string][]byte, []st
 		if err != nil {
 			return nil, nil, err
 		}
-		ov[filepath.Join("/repo", f.Pkg, "zz_verif_"+filepath.Base(f.Src))] = b
+		ov[filepath.Join(repoRoot, f.Pkg, "zz_verif_"+filepath.Base(f.Src))] = b
 		pkgset["./"+f.Pkg] = true
 	}
 	var pats []string
@@ -148,7 +148,7 @@ var depSyntaxPkgs = []string{
 func LoadWorld(overlay map[string][]byte, patterns []string) (*World, error) {
 	env := append(os.Environ(), "GOFLAGS=-mod=mod", "GOPROXY=off", "GOSUMDB=off", "GOTOOLCHAIN=local")
 	// phase 1: repo-internal import closure of the harness packages
-	cfg1 := &packages.Config{Mode: packages.NeedName | packages.NeedImports | packages.NeedDeps, Dir: "/repo", Env: env,
+	cfg1 := &packages.Config{Mode: packages.NeedName | packages.NeedImports | packages.NeedDeps, Dir: repoRoot, Env: env,
 		BuildFlags: []string{"-tags=verif"}, Overlay: overlay}
 	p1, err := packages.Load(cfg1, patterns...)
 	if err != nil {
@@ -170,7 +170,7 @@ func LoadWorld(overlay map[string][]byte, patterns []string) (*World, error) {
 	cfg := &packages.Config{
 		Mode: packages.NeedName | packages.NeedFiles | packages.NeedCompiledGoFiles | packages.NeedImports |
 			packages.NeedTypes | packages.NeedTypesSizes | packages.NeedSyntax | packages.NeedTypesInfo,
-		Dir: "/repo", Env: env, BuildFlags: []string{"-tags=verif"}, Overlay: overlay,
+		Dir: repoRoot, Env: env, BuildFlags: []string{"-tags=verif"}, Overlay: overlay,
 	}
 	pkgs, err := packages.Load(cfg, pats...)
 	if err != nil {
